@@ -53,8 +53,8 @@ type adapter struct {
 type callFn = func(ctx context.Context) (any, error)
 
 var adapters = []*adapter{
-	{name: "attestationdata-best", kind: "best", invalid: []string{"nildata", "niltarget", "badepoch"}, maxQ: 4, dims: 2, mk: mkAttData, build: buildADBest},
-	{name: "attestationdata-majority", kind: "majority", threshold: true, invalid: []string{"nildata", "niltarget", "badepoch"}, maxQ: 2, dims: 1, mk: mkAttData, build: buildADMajority},
+	{name: "attestationdata-best", kind: "best", invalid: []string{"nildata", "niltarget", "badepoch", "otherepoch"}, maxQ: 4, dims: 2, mk: mkAttData, build: buildADBest},
+	{name: "attestationdata-majority", kind: "majority", threshold: true, invalid: []string{"nildata", "niltarget", "badepoch", "otherepoch"}, maxQ: 2, dims: 1, mk: mkAttData, build: buildADMajority},
 	{name: "attestationdata-first", kind: "first", invalid: []string{"nildata"}, maxQ: 4, dims: 2, mk: mkAttData, build: buildADFirst},
 	{name: "aggregateattestation-best", kind: "best", invalid: []string{"nildata"}, maxQ: 5, dims: 1, mk: mkAggregate, build: buildAABest},
 	{name: "aggregateattestation-first", kind: "first", invalid: []string{"nildata"}, maxQ: 5, dims: 1, mk: mkAggregate, build: buildAAFirst},
@@ -128,6 +128,19 @@ func mkAttData(h *harness, c content) any {
 	case "niltarget":
 		copy(d.Source.Root[:], marker(h, 0xa0, c))
 		d.Target = nil
+	case "otherepoch":
+		// a node an epoch ahead or behind: self-consistent data, but for a slot of another epoch
+		// (the one ahead scores above every valid response)
+		spe := h.chain.SlotsPerEpoch
+		if c.Q%2 == 1 && uint64(d.Slot) >= spe {
+			d.Slot -= phase0.Slot(spe)
+			d.Target.Epoch = e - 1
+			d.Source.Epoch = e - 2
+		} else {
+			d.Slot += phase0.Slot(spe)
+			d.Target.Epoch = e + 1
+			d.Source.Epoch = e
+		}
 	}
 	return d
 }
